@@ -56,3 +56,149 @@ def align():
             print('REPLAY: VIOLATION-CONFIRMED free indices are not ordered as requested')
             return
     print('REPLAY: not reproduced')
+
+
+# ---------------------------------------------------------------- _Substring scanning (reference semantics, small exhaustive family)
+
+_OPEN, _CLOSE = '([{<', ')]}>'
+
+
+def _texts(alphabet='a (+)', maxlen=6):
+    import itertools
+    for n in range(maxlen + 1):
+        for t in itertools.product(alphabet, repeat=n):
+            yield ''.join(t)
+
+
+def _ref_find(text, matchers):
+    """first offset at bracket level 0 (closers counted before, openers after the test) where a matcher fires"""
+    level = 0
+    for k, ch in enumerate(text):
+        if ch in _CLOSE:
+            level -= 1
+        if level == 0:
+            for j, m in enumerate(matchers):
+                n = m(text[k:])
+                if n:
+                    return j, k, n
+        if ch in _OPEN:
+            level += 1
+    return -1, len(text), 0
+
+
+def _ref_split(text, matchers):
+    out = []
+    first = None
+    while True:
+        j, k, n = _ref_find(text, matchers)
+        out.append((first, text[:k]))
+        if not n:
+            return out
+        text, first = text[k + n:], j
+    
+
+def _sub(text, pad=(1, 2)):
+    from nutils.expression_v2 import _Substring
+    base = 'x' * pad[0] + text + ')' * pad[1]
+    return _Substring(base, pad[0], pad[0] + len(text))
+
+
+def _report(what, text, got, want):
+    print('%s on %r: real code gives %r, the contract requires %r' % (what, text, got, want))
+    print('REPLAY: VIOLATION-CONFIRMED')
+
+
+def find():
+    from nutils.expression_v2 import _match, _match_spaces
+    ms = (_match(' + '), _match_spaces)
+    for text in _texts():
+        for matchers in (ms[:1], ms[1:], ms):
+            try:
+                got = _sub(text)._find(*matchers)
+            except Exception as e:
+                return _report('_find', text, type(e).__name__, _ref_find(text, matchers))
+            if tuple(got) != _ref_find(text, matchers):
+                return _report('_find', text, tuple(got), _ref_find(text, matchers))
+    print('REPLAY: not reproduced')
+
+
+def matchers():
+    from nutils.expression_v2 import _match, _match_spaces
+    for text in _texts('a +/^_', 5):
+        for lit in (' + ', ' / ', '^', '_'):
+            want = len(lit) if text[:len(lit)] == lit else 0
+            if _match(lit)(text) != want:
+                return _report('_match(%r)' % lit, text, _match(lit)(text), want)
+        want = len(text) - len(text.lstrip(' '))
+        k = 0
+        while k < len(text) and text[k] == ' ':
+            k += 1
+        if _match_spaces(text) != k:
+            return _report('_match_spaces', text, _match_spaces(text), k)
+    print('REPLAY: not reproduced')
+
+
+def partition():
+    from nutils.expression_v2 import _match
+    for text in _texts('a_()', 6):
+        j, k, n = _ref_find(text, (_match('_'),))
+        want = (text[:k], text[k:k + n], text[k + n:])
+        try:
+            s = _sub(text)
+            got = tuple(str(p) for p in s.partition(_match('_')))
+            rng = [(p.start, p.stop) for p in s.partition(_match('_'))]
+        except Exception as e:
+            return _report('partition', text, type(e).__name__, want)
+        if got != want or rng[0][0] != s.start or rng[2][1] != s.stop or rng[0][1] != rng[1][0] or rng[1][1] != rng[2][0]:
+            return _report('partition', text, got, want)
+    print('REPLAY: not reproduced')
+
+
+def split():
+    from nutils.expression_v2 import _match, _match_spaces
+    for text in _texts('a (+)', 7):
+        for matchers, first in (((_match_spaces,), None), ((_match(' + '), _match(' ')), 7)):
+            want = _ref_split(text, matchers)
+            try:
+                s = _sub(text)
+                got = [str(p) for p in s.split(*matchers)]
+                goti = [(j, str(p)) for j, p in s.isplit(*matchers, first=first)]
+                rng = [(p.start, p.stop) for p in s.split(*matchers)]
+            except Exception as e:
+                return _report('split', text, type(e).__name__, [p for _, p in want])
+            if got != [p for _, p in want]:
+                return _report('split', text, got, [p for _, p in want])
+            if goti != [(first if j is None else j, p) for j, p in want]:
+                return _report('isplit', text, goti, [(first if j is None else j, p) for j, p in want])
+            if rng[0][0] != s.start or rng[-1][1] != s.stop or any(a > b for a, b in rng) or any(p[1] >= q[0] for p, q in zip(rng, rng[1:])):
+                return _report('split (ranges)', text, rng, 'pieces tile the input with non-empty separators')
+    print('REPLAY: not reproduced')
+
+
+def trim():
+    for text in _texts('a ', 6):
+        s = _sub(text)
+        try:
+            t = s.trim()
+        except Exception as e:
+            return _report('trim', text, type(e).__name__, text.strip(' '))
+        lead = len(text) - len(text.lstrip(' '))
+        want = (s.start + lead, s.start + lead + len(text.strip(' '))) if text.strip(' ') else None
+        if str(t) != text.strip(' ') or not (s.start <= t.start <= t.stop <= s.stop) or (want and (t.start, t.stop) != want):
+            return _report('trim', text, (str(t), t.start, t.stop), (text.strip(' '), want))
+    print('REPLAY: not reproduced')
+
+
+def strip():
+    for text in _texts('a-) ', 5):
+        s = _sub(text)
+        for name, lit, want in (('strip_prefix', '-', text[1:] if text[:1] == '-' else None), ('strip_suffix', ')', text[:-1] if text[-1:] == ')' else None),
+                                ('starts_with', ' ', text[:1] == ' '), ('ends_with', ' ', text[-1:] == ' ')):
+            try:
+                got = getattr(s, name)(lit)
+            except Exception as e:
+                return _report(name, text, type(e).__name__, want)
+            got = got if isinstance(got, bool) or got is None else str(got)
+            if got != want:
+                return _report('%s(%r)' % (name, lit), text, got, want)
+    print('REPLAY: not reproduced')
